@@ -214,6 +214,10 @@ def handle (entry : String) (j : Json) : Except String Json := do
         | none => Json.mkObj [("err", Json.str "ParCorError")]
         | some (a, e, ks) => Json.mkObj [("a", rats a), ("error", ratToJson e), ("ks", rats ks),
             ("spec_error", ratToJson (errorSpec (q.headD 0) ks)), ("spec_a", rats (stepUp ks))])]
+  | "fbits" =>
+    -- the input decoder followed by the output encoder (round trip of bit patterns)
+    let xs ← getList getBits (← field j "bits")
+    pure <| Json.mkObj [("bits", bitsJson xs), ("finite", arr (fun (x : F64) => Json.bool x.isFinite) xs)]
   | "fsum" =>
     -- the summation function of the twin, for the identity check of the harness
     let ls ← getList (getList getBits) (← field j "lists")
